@@ -254,6 +254,26 @@ theorem dispatch_cache_idempotent (build : Nat → Nat) (hist : List Nat) (k : N
   subst this
   rw [fillGet_present hv']
 
+/-- **a per-class memo whose value is a function of the class is order-independent**: whatever two histories of lookups
+    (which generator classes were instantiated before, in which order) preceded it, a lookup answers the same -/
+theorem dispatch_order_independent (build : Nat → Nat) (h1 h2 : List Nat) (k : Nat) :
+    (fillGet build (runFills build [] h1) k).1 = (fillGet build (runFills build [] h2) k).1 := by
+  rw [(dispatch_cache_idempotent build h1 k).1, (dispatch_cache_idempotent build h2 k).1]
+
+/-- **witness for reusing the parent's entry** (seeded regression C15-8): a child class (2) whose own table differs from its
+    parent's (1) gets the parent's table when the parent was instantiated first, and its own when it comes first or alone —
+    Athena's internal `_HiveGenerator.alter_sql` after any Hive statement -/
+theorem inherited_dispatch_entry_witness :
+    let build : Nat → Nat := fun k => k * 10
+    let parent : Nat → Nat := fun _ => 1
+    (fillGetInherit build parent (fillGetInherit build parent [] 1).2 2).1 = 10 ∧
+    (fillGetInherit build parent [] 2).1 = 20 ∧
+    (fillGet build (fillGet build [] 1).2 2).1 = 20 := by decide
+
+/-- the source fact: `_build_dispatch` as extracted on this run computes the table from `cls` alone (audited statement list; it
+    reads neither `_DISPATCH_CACHE` nor `__mro__` / `__bases__`) — finite table, decided completely -/
+theorem build_dispatch_policy_ok : buildDispatchShape = expectedBuildDispatchShape := by decide +kernel
+
 /-- the dialect registry is such a table (`_classes[name]`, filled by importing the dialect module): whatever dialects were
     looked up before, in whatever order, a name resolves to the class its module defines -/
 theorem registry_lookup_eq_fresh (load : Nat → Nat) (hist : List Nat) (name : Nat) :
